@@ -65,3 +65,32 @@ CHECKS["C12"] = dict(
         "Any/Copy/Merge receive valid encodings only (Any copies raw bytes without validation by design)",
     ],
 )
+
+CHECKS["C16"] = dict(
+    parts=[dict(pkg="codec", run="^TestC16_")], level="exploration",
+    quick=dict(shards=4, checks=5000, timeout=600),
+    thorough=dict(shards=16, checks=60000, timeout=2400),
+    assumptions=[
+        "kind changes of a surviving tag and reuse of a removed tag with another meaning are outside the property",
+    ],
+)
+
+CHECKS["C17"] = dict(
+    parts=[dict(pkg="codec", run="^TestC17_")], level="exploration",
+    quick=dict(shards=4, checks=1500, timeout=600, gomaxprocs=2),
+    thorough=dict(shards=16, checks=20000, timeout=2400, gomaxprocs=1),
+    assumptions=[
+        "measured with the repository's own toolchain (go1.24.0) and default flags; escape analysis of other toolchains is not covered",
+        "accessors documented to allocate (Clone*, Values(), table Fields()/Elements(), StringClone) and error paths are excluded",
+        "steady state = after 3 warm-up runs with the garbage collector disabled during measurement (sync.Pool contents are dropped by GC by design)",
+    ],
+)
+
+CHECKS["C18"] = dict(
+    parts=[dict(pkg="codec", run="^TestC18_")], level="exploration",
+    quick=dict(shards=4, checks=400, timeout=600),
+    thorough=dict(shards=8, checks=1500, timeout=2400, race=True),
+    assumptions=[
+        "a data race is only observed if it occurs in an execution (thorough tier, -race build)",
+    ],
+)
